@@ -1,9 +1,9 @@
 //! Distance queries and measurements on meshes
 
 use super::Mesh;
-use crate::common::indices::chained_indices;
 use crate::{Curve3, Iso3, Plane3, Point3, SurfacePoint3};
-use parry3d_f64::query::{IntersectResult, PointProjection, PointQueryWithLocation, SplitResult};
+use parry3d_f64::query::{PointProjection, PointQueryWithLocation, SplitResult};
+use std::collections::{HashMap, HashSet};
 use parry3d_f64::shape::TrianglePointLocation;
 use std::f64::consts::PI;
 
@@ -150,21 +150,119 @@ impl Mesh {
     /// ```
     pub fn section(&self, plane: &Plane3, tol: Option<f64>) -> crate::Result<Vec<Curve3>> {
         let tol = tol.unwrap_or(1.0e-6);
-        let mut collected = Vec::new();
-        let result = self
-            .shape
-            .intersection_with_local_plane(&plane.normal, plane.d, 1.0e-6);
 
-        if let IntersectResult::Intersect(pline) = result {
-            let chains = chained_indices(pline.indices());
-            for chain in chains.iter() {
-                let points = chain
-                    .iter()
-                    .map(|&i| pline.vertices()[i as usize])
-                    .collect::<Vec<_>>();
-                if let Ok(curve) = Curve3::from_points(&points, tol) {
-                    collected.push(curve);
+        // The crossing of the plane with every face is computed here rather than with the
+        // underlying `TriMesh` plane intersection, which assumes that every section is a closed
+        // loop and never returns (allocating without bound) when a section ends on the boundary of
+        // an open mesh.
+        let epsilon = 1.0e-6;
+        let vertices = self.vertices();
+        let side: Vec<i8> = vertices
+            .iter()
+            .map(|v| {
+                let d = plane.signed_distance_to_point(v);
+                if d > epsilon {
+                    1
+                } else if d < -epsilon {
+                    -1
+                } else {
+                    0
                 }
+            })
+            .collect();
+
+        // Section points are created on demand: mesh vertices lying on the plane, and the
+        // crossing points of edges whose ends are on opposite sides. Each is created once so that
+        // faces sharing the vertex or edge refer to the same point.
+        let mut points: Vec<Point3> = Vec::new();
+        let mut on_vertex: HashMap<u32, u32> = HashMap::new();
+        let mut on_edge: HashMap<(u32, u32), u32> = HashMap::new();
+        let mut segments: Vec<[u32; 2]> = Vec::new();
+        let mut seen_segments: HashSet<(u32, u32)> = HashSet::new();
+
+        for face in self.faces() {
+            let mut hits: Vec<u32> = Vec::new();
+            for k in 0..3 {
+                let (a, b) = (face[k], face[(k + 1) % 3]);
+                let (sa, sb) = (side[a as usize], side[b as usize]);
+                if sa == 0 {
+                    let id = *on_vertex.entry(a).or_insert_with(|| {
+                        points.push(vertices[a as usize]);
+                        (points.len() - 1) as u32
+                    });
+                    hits.push(id);
+                } else if sa * sb < 0 {
+                    let key = (a.min(b), a.max(b));
+                    let id = *on_edge.entry(key).or_insert_with(|| {
+                        let (p0, p1) = (vertices[key.0 as usize], vertices[key.1 as usize]);
+                        let d0 = plane.signed_distance_to_point(&p0);
+                        let d1 = plane.signed_distance_to_point(&p1);
+                        points.push(p0 + (p1 - p0) * (d0 / (d0 - d1)));
+                        (points.len() - 1) as u32
+                    });
+                    hits.push(id);
+                }
+            }
+
+            // Two hits are a crossing segment; one is a face touching the plane at a vertex and
+            // three is a face lying in the plane, neither of which contributes a segment
+            if hits.len() == 2 && hits[0] != hits[1] {
+                let key = (hits[0].min(hits[1]), hits[0].max(hits[1]));
+                if seen_segments.insert(key) {
+                    segments.push([hits[0], hits[1]]);
+                }
+            }
+        }
+
+        // Join the segments end to end. Chains which end on the boundary of an open mesh are
+        // started from one of their ends, everything that remains afterwards is a closed loop.
+        let mut incident: HashMap<u32, Vec<usize>> = HashMap::new();
+        for (i, s) in segments.iter().enumerate() {
+            incident.entry(s[0]).or_default().push(i);
+            incident.entry(s[1]).or_default().push(i);
+        }
+
+        let mut used = vec![false; segments.len()];
+        let mut starts: Vec<usize> = (0..segments.len())
+            .filter(|&i| segments[i].iter().any(|p| incident[p].len() == 1))
+            .collect();
+        starts.extend(0..segments.len());
+
+        let mut collected = Vec::new();
+        for start in starts {
+            if used[start] {
+                continue;
+            }
+            used[start] = true;
+
+            let s = segments[start];
+            let (first, second) = if incident[&s[1]].len() == 1 {
+                (s[1], s[0])
+            } else {
+                (s[0], s[1])
+            };
+            let mut chain = vec![first, second];
+            let mut current = second;
+            while current != first {
+                if let Some(&i) = incident[&current].iter().find(|&&i| !used[i]) {
+                    used[i] = true;
+                    current = if segments[i][0] == current {
+                        segments[i][1]
+                    } else {
+                        segments[i][0]
+                    };
+                    chain.push(current);
+                } else {
+                    break;
+                }
+            }
+
+            let chain_points = chain
+                .iter()
+                .map(|&i| points[i as usize])
+                .collect::<Vec<_>>();
+            if let Ok(curve) = Curve3::from_points(&chain_points, tol) {
+                collected.push(curve);
             }
         }
 
